@@ -1067,12 +1067,13 @@ def _actor_connect(self: World, host: str, port: Any, cap_to_proxy: int = 65536,
     """An actor connects to a listener bound inside the simulation.
     Returns the actor-side stream, or None if refused."""
     key: Any = ('unix', host) if port is None else (host, port)
+    shown = host if port is not None else __import__('os').path.basename(host)
     lst = self.bound.get(key)
     if lst is None and port is not None:
         wild = '::' if ':' in host else '0.0.0.0'
         lst = self.bound.get((wild, port))
     if lst is None or not lst.listening or lst.closed or len(lst.queue) >= lst.backlog_max:
-        self.ev(label, 'connect', '%s:%s refused' % (host, port))
+        self.ev(label, 'connect', '%s:%s refused' % (shown, port))
         return None
     self.stream_seq += 1
     a, b = self.stream_pair(cap_to_client, cap_to_proxy, label + ':a', label + ':p')
@@ -1082,7 +1083,7 @@ def _actor_connect(self: World, host: str, port: Any, cap_to_proxy: int = 65536,
     b.laddr, b.raddr = (host, port), caddr
     b.family = lst.family
     lst.queue.append((b, caddr))
-    self.ev(label, 'connect', '%s:%s ok' % (host, port))
+    self.ev(label, 'connect', '%s:%s ok' % (shown, port))
     self.touch()
     return a
 
